@@ -91,6 +91,23 @@ pub struct Stats {
     pub clear_nonempty: bool,
     pub key_prefix_pair: bool,
     pub id_collision: bool,
+    pub abandoned_while_running: bool,
+    pub two_outstanding: bool,
+    pub heir_abandoned: bool,
+    pub second_handle: bool,
+    pub superseded_error: bool,
+    pub abandoned_unpolled_holder: bool,
+}
+
+/// An outstanding `node_store` future.
+pub struct Pend<P: PlanePersistence> {
+    fut: BoxFuture<'static, Result<P::Node, StoreError>>,
+    /// A later request for the same uri was made while this one was outstanding (the in-memory
+    /// store documents that the earlier one may then fail: "Multiple copies of agent instance starting").
+    superseded: bool,
+    /// Something that may have held the agent's state (the instance in use, or another outstanding
+    /// request) was dropped while this request was outstanding, i.e. the state may have been handed to it.
+    maybe_heir: bool,
 }
 
 pub struct Exec<'c, P: PlanePersistence, F> {
@@ -102,6 +119,10 @@ pub struct Exec<'c, P: PlanePersistence, F> {
     pub items: &'c [FlatItem],
     plane: Option<P>,
     nodes: Vec<Option<P::Node>>,
+    /// Outstanding `node_store` futures per agent, oldest first.
+    pending: Vec<Vec<Pend<P>>>,
+    /// A request that may have been handed the agent's state was dropped unresolved.
+    heir_abandoned: Vec<bool>,
     /// Ids obtained from the current node store instance.
     sess_ids: Vec<Option<Id<P>>>,
     /// First id ever observed per item.
@@ -133,6 +154,8 @@ where
             items,
             plane: None,
             nodes: uris.iter().map(|_| None).collect(),
+            pending: uris.iter().map(|_| vec![]).collect(),
+            heir_abandoned: uris.iter().map(|_| false).collect(),
             sess_ids: items.iter().map(|_| None).collect(),
             first_ids: items.iter().map(|_| None).collect(),
             tainted: items.iter().map(|_| None).collect(),
@@ -174,25 +197,63 @@ where
                 Err(e) => return Err(self.store_err("open", None, e)),
             }
         }
-        if self.nodes[agent].is_none() {
-            let mut fut = self.plane.as_ref().unwrap().node_store(&self.uris[agent]);
-            match poll_once(&mut fut) {
-                Poll::Ready(Ok(n)) => self.nodes[agent] = Some(n),
-                Poll::Ready(Err(e)) => return Err(self.store_err("node_store", None, e)),
-                Poll::Pending => {
-                    // No other instance for this uri is alive: nothing to wait for.
-                    self.fail(
-                        format!("{}:node_store-pending", self.bk),
-                        format!(
-                            "node_store({:?}) did not resolve although no node store for that uri is in use",
-                            self.uris[agent]
-                        ),
-                    );
-                    return Err(Abort);
+        if self.nodes[agent].is_some() {
+            return Ok(());
+        }
+        // outstanding requests first, oldest first, until one yields the node store
+        let mut i = 0;
+        while i < self.pending[agent].len() {
+            match poll_once(&mut self.pending[agent][i].fut) {
+                Poll::Ready(Ok(n)) => {
+                    self.pending[agent].remove(i);
+                    self.nodes[agent] = Some(n);
+                    return Ok(());
                 }
+                Poll::Ready(Err(e)) => {
+                    let p = self.pending[agent].remove(i);
+                    if p.superseded {
+                        self.stats.superseded_error = true;
+                    } else {
+                        return Err(self.store_err("node_store", None, e));
+                    }
+                }
+                Poll::Pending => i += 1,
+            }
+        }
+        let q = self.life_qual(agent);
+        if !self.pending[agent].is_empty() {
+            let d = format!(
+                "{} outstanding node_store({:?}) request(s) do not resolve although no node store for that uri is in use",
+                self.pending[agent].len(),
+                self.uris[agent]
+            );
+            self.fail(format!("{}:node_store-pending{}", self.bk, q), d);
+            return Err(Abort);
+        }
+        let mut fut = self.plane.as_ref().unwrap().node_store(&self.uris[agent]);
+        match poll_once(&mut fut) {
+            Poll::Ready(Ok(n)) => self.nodes[agent] = Some(n),
+            Poll::Ready(Err(e)) => return Err(self.store_err("node_store", None, e)),
+            Poll::Pending => {
+                // No other instance for this uri is alive and no request is outstanding: nothing to wait for.
+                let d = format!(
+                    "node_store({:?}) did not resolve although no node store for that uri is in use and no other request is outstanding",
+                    self.uris[agent]
+                );
+                self.fail(format!("{}:node_store-pending{}", self.bk, q), d);
+                return Err(Abort);
             }
         }
         Ok(())
+    }
+
+    /// Signature qualifier for lifecycle related failures of an agent.
+    fn life_qual(&self, agent: usize) -> &'static str {
+        if self.heir_abandoned[agent] {
+            "/abandoned-heir"
+        } else {
+            ""
+        }
     }
 
     /// The id of the item from the current node store instance (`id_for` on first use, as the agent
@@ -377,7 +438,10 @@ where
                 (false, true) => self.nontarget_labels.0,
                 (false, false) => self.nontarget_labels.1,
             };
-            let sig = if self.tainted[item].is_some() {
+            let lq = self.life_qual(self.items[item].agent);
+            let sig = if !lq.is_empty() {
+                format!("{}:state-lost{}", self.bk, lq)
+            } else if self.tainted[item].is_some() {
                 // consequence of an id collision that is reported on its own
                 format!("{}:data-interference{}", self.bk, self.qual(item))
             } else {
@@ -411,8 +475,7 @@ where
         self.model.iter().filter(|m| matches!(m, M::Map(x) if !x.is_empty())).count()
     }
 
-    fn drop_node(&mut self, agent: usize) {
-        self.nodes[agent] = None;
+    fn forget_session(&mut self, agent: usize) {
         for (i, it) in self.items.iter().enumerate() {
             if it.agent == agent {
                 self.sess_ids[i] = None;
@@ -420,11 +483,59 @@ where
         }
     }
 
+    fn drop_node(&mut self, agent: usize) {
+        if self.nodes[agent].take().is_some() {
+            for p in &mut self.pending[agent] {
+                p.maybe_heir = true;
+            }
+        }
+        self.forget_session(agent);
+    }
+
+    /// Outstanding requests are dropped first (abandoned while the instance is still there), then the
+    /// instances, then the plane store.
     pub fn close_all(&mut self) {
         for a in 0..self.uris.len() {
+            self.pending[a].clear();
             self.drop_node(a);
         }
         self.plane = None;
+    }
+
+    fn request(&mut self, agent: usize) -> Result<(), Abort> {
+        if self.plane.is_none() {
+            match (self.open)() {
+                Ok(p) => self.plane = Some(p),
+                Err(e) => return Err(self.store_err("open", None, e)),
+            }
+        }
+        for p in &mut self.pending[agent] {
+            p.superseded = true;
+        }
+        let fut = self.plane.as_ref().unwrap().node_store(&self.uris[agent]);
+        self.pending[agent].push(Pend { fut, superseded: false, maybe_heir: false });
+        if self.pending[agent].len() >= 2 {
+            self.stats.two_outstanding = true;
+        }
+        Ok(())
+    }
+
+    fn abandon(&mut self, agent: usize, which: usize) {
+        let p = self.pending[agent].remove(which);
+        if self.nodes[agent].is_some() {
+            self.stats.abandoned_while_running = true;
+        } else {
+            self.stats.abandoned_unpolled_holder = true;
+        }
+        if p.maybe_heir {
+            self.heir_abandoned[agent] = true;
+            self.stats.heir_abandoned = true;
+        }
+        drop(p);
+        // the dropped future may itself have held the node store
+        for p in &mut self.pending[agent] {
+            p.maybe_heir = true;
+        }
     }
 
     pub fn step(&mut self, op: &Op) -> Result<(), Abort> {
@@ -520,22 +631,24 @@ where
                     if self.model.iter().any(|m| !m.is_empty()) {
                         self.stats.reopen_with_data = true;
                     }
-                    let mut fut = self.plane.as_ref().unwrap().node_store(&self.uris[agent]);
-                    let first = poll_once(&mut fut);
+                    self.request(agent)?;
+                    let mut p = self.pending[agent].pop().unwrap();
+                    let first = poll_once(&mut p.fut);
                     // the old instance goes away only now
                     self.drop_node(agent);
                     let res = match first {
                         Poll::Ready(r) => r,
                         Poll::Pending => {
                             self.stats.handover_pending = true;
-                            match poll_once(&mut fut) {
+                            match poll_once(&mut p.fut) {
                                 Poll::Ready(r) => r,
                                 Poll::Pending => {
                                     let d = format!(
                                         "node_store({:?}) requested while the previous instance was alive still pending after that instance was dropped",
                                         self.uris[agent]
                                     );
-                                    self.fail(format!("{}:handover-pending", self.bk), d);
+                                    let q = self.life_qual(agent);
+                                    self.fail(format!("{}:handover-pending{}", self.bk, q), d);
                                     return Err(Abort);
                                 }
                             }
@@ -547,6 +660,82 @@ where
                     }
                 }
                 self.sweep(None, false, "after handing the node store over to a new instance")?;
+            }
+            Op::Stop(sel) => {
+                let agent = pick_index(*sel, n_agents);
+                if self.nodes[agent].is_some() && self.model.iter().any(|m| !m.is_empty()) {
+                    self.stats.reopen_with_data = true;
+                }
+                self.drop_node(agent);
+            }
+            Op::Request(sel) => {
+                let agent = pick_index(*sel, n_agents);
+                if self.pending[agent].len() < 3 {
+                    self.request(agent)?;
+                }
+            }
+            Op::Abandon(sel, which) => {
+                let agent = pick_index(*sel, n_agents);
+                if !self.pending[agent].is_empty() {
+                    let w = pick_index(*which, self.pending[agent].len());
+                    self.abandon(agent, w);
+                }
+            }
+            Op::Resolve(sel, which, new_first) => {
+                let agent = pick_index(*sel, n_agents);
+                if !self.pending[agent].is_empty() {
+                    let w = pick_index(*which, self.pending[agent].len());
+                    match poll_once(&mut self.pending[agent][w].fut) {
+                        Poll::Ready(Ok(n)) => {
+                            self.pending[agent].remove(w);
+                            match self.nodes[agent].take() {
+                                None => {
+                                    self.nodes[agent] = Some(n);
+                                    self.forget_session(agent);
+                                    self.sweep(None, false, "after an outstanding node_store request resolved")?;
+                                }
+                                Some(old) => {
+                                    // two handles for one uri at once: what was written through the old
+                                    // one is read through the new one, then one of them goes away
+                                    self.stats.second_handle = true;
+                                    self.nodes[agent] = Some(n);
+                                    self.forget_session(agent);
+                                    self.sweep(None, false, "through a second node store handle for the same uri")?;
+                                    if *new_first {
+                                        drop(old);
+                                    } else {
+                                        self.nodes[agent] = Some(old);
+                                        self.forget_session(agent);
+                                    }
+                                    for p in &mut self.pending[agent] {
+                                        p.maybe_heir = true;
+                                    }
+                                    self.sweep(None, false, "after dropping one of two node store handles for the same uri")?;
+                                }
+                            }
+                        }
+                        Poll::Ready(Err(e)) => {
+                            let p = self.pending[agent].remove(w);
+                            if p.superseded {
+                                self.stats.superseded_error = true;
+                            } else {
+                                return Err(self.store_err("node_store", None, e));
+                            }
+                        }
+                        Poll::Pending => {
+                            // legitimate only while something else can hold the agent's state
+                            if self.nodes[agent].is_none() && self.pending[agent].len() == 1 {
+                                let d = format!(
+                                    "the only outstanding node_store({:?}) request is pending although no node store for that uri is in use",
+                                    self.uris[agent]
+                                );
+                                let q = self.life_qual(agent);
+                                self.fail(format!("{}:node_store-pending{}", self.bk, q), d);
+                                return Err(Abort);
+                            }
+                        }
+                    }
+                }
             }
             Op::ReopenAll => {
                 if self.plane.is_some() {
@@ -601,6 +790,12 @@ fn case_classes(v: &mut Verdict, case: &Case, uris: &[String], items: &[FlatItem
     v.class_if(stats.clear_interleaved, "clear-with-2+-maps-populated");
     v.class_if(stats.key_prefix_pair, "key-prefix-of-key");
     v.class_if(stats.id_collision, "id-collision-observed");
+    v.class_if(stats.abandoned_while_running, "request-abandoned-while-running");
+    v.class_if(stats.abandoned_unpolled_holder, "request-abandoned-while-stopped");
+    v.class_if(stats.two_outstanding, "two-outstanding-requests");
+    v.class_if(stats.superseded_error, "superseded-request-failed");
+    v.class_if(stats.heir_abandoned, "possible-heir-abandoned");
+    v.class_if(stats.second_handle, "two-handles-one-uri");
     v.class_if(uris.len() >= 2, "agents>=2");
     v.class_if(case.prealloc > 0, "ids-around-256");
     v.class_if(items.iter().any(|i| i.name.is_empty()), "empty-name");
